@@ -370,6 +370,31 @@ var VariedHeaders = map[string][]string{
 	"Content-Encoding":               {"", "gzip"},
 	"Referer":                        {"", "http://evil/page"},
 	"User-Agent":                     {"", "verif-c20/1.0"},
+	// headers proxies / browsers add and that "smart" middleware likes to trust: each on its own with every method and
+	// credential class representative
+	"X-Forwarded-For":        {"", "127.0.0.1"},
+	"X-Forwarded-Proto":      {"", "https"},
+	"X-Forwarded-Host":       {"", "localhost"},
+	"X-Real-Ip":              {"", "127.0.0.1"},
+	"X-Http-Method-Override": {"", "OPTIONS"},
+	"Upgrade":                {"", "websocket"},
+	"Connection":             {"", "Upgrade", "close"},
+	"Sec-Fetch-Mode":         {"", "cors"},
+	"Cookie":                 {"", "session=1"},
+}
+
+// VariedSettings: every configuration field / environment variable the middleware wiring (the functions that call
+// router.Use) may branch on, and how the configuration alphabet covers it.  ScanWiringSettings (static.go) finds the
+// settings really used in if-conditions there; an unknown one is exit 2.
+var VariedSettings = map[string]string{
+	"AUTH_SETTINGS.BASIC.Username": "always set (premise of the property), several credential pairs",
+	"AUTH_SETTINGS.BASIC.Password": "always set (premise of the property), several credential pairs",
+	"HTTP_SETTINGS.Cors.Enable":    "off and on (CORS_ALLOW_ORIGIN unset / set), crossed with MODE and the credential pairs",
+	"HTTP_SETTINGS.Cors.Origin":    "on: `*` (thorough: also a specific origin)",
+	"SYSTEM_SETTINGS.Mode":         "reader and writer (all needs ClickHouse for initDB)",
+	"HTTP_SETTINGS.Port":           "free loopback port (value irrelevant to the chain)",
+	"env:MODE":                     "reader and writer",
+	"ownHttpServer":                "false: main() hands its router to reader.Init (the stand-alone reader server is not started by main())",
 }
 
 type comboSets struct {
@@ -435,14 +460,15 @@ func buildCombos() comboSets {
 		}
 	}
 	cs.Single = append(cs.Single, cs.Base...)
-	for _, name := range []string{"Accept-Encoding", "Access-Control-Request-Method", "Access-Control-Request-Headers", "Content-Encoding", "Referer", "User-Agent"} {
+	for _, name := range []string{"Accept-Encoding", "Access-Control-Request-Method", "Access-Control-Request-Headers", "Content-Encoding", "Referer", "User-Agent",
+		"X-Forwarded-For", "X-Forwarded-Proto", "X-Forwarded-Host", "X-Real-Ip", "X-Http-Method-Override", "Upgrade", "Connection", "Sec-Fetch-Mode", "Cookie"} {
 		for _, v := range VariedHeaders[name] {
 			if v == "" {
 				continue
 			}
 			i := add([][2]string{{name, v}})
 			cs.Single = append(cs.Single, i)
-			if name == "Referer" || name == "User-Agent" {
+			if !strings.HasPrefix(name, "Access-Control-") && name != "Accept-Encoding" && name != "Content-Encoding" {
 				cs.Full = append(cs.Full, i)
 			}
 			if strings.HasPrefix(name, "Access-Control-") {
@@ -450,6 +476,8 @@ func buildCombos() comboSets {
 			}
 		}
 	}
+	ws := add([][2]string{{"Connection", "Upgrade"}, {"Upgrade", "websocket"}})
+	cs.Full, cs.Single = append(cs.Full, ws), append(cs.Single, ws)
 	cs.TCP = append(cs.TCP, cs.Base...)
 	cs.TCP = append(cs.TCP,
 		add([][2]string{{"Origin", "http://evil"}, {"Access-Control-Request-Method", "GET"}}),
